@@ -204,6 +204,29 @@ def run_transition(U, enc, pre_obs, pre_abs, op, acc, hist, cache, obs_cache, pr
                 tgt = (('T', op[2]), op[1])
             elif op[0] == 'insert' and 0 <= op[2] <= len(O._lst(pre_abs, op[1])):
                 tgt = (op[1], op[3])
+        if pre_ok and op[0] in ('list=', 'list+=', '//', 'list=iter') and len(op[2]) >= 1:
+            # the same for a LIST of detached tasks (a task may be named twice, or together with one of its own descendants -
+            # what remove_all returns when a summary and its child both matched)
+            c, L = op[1], list(op[2])
+            k = c[1] if c[0] == 'W' else pre_abs.own[c[1]]
+            line = [] if c[0] == 'W' else [c[1]] + pre_abs.ancestors(c[1])
+            ok = k is not None
+            union = set()
+            for y in L:
+                anc = pre_abs.ancestors(y)
+                if not (_free_root(pre_abs, y) or (any(z in L for z in anc) and _free_root(pre_abs, ([y] + anc)[-1]))):
+                    ok = False
+                    break
+                union |= set(pre_abs.subtree(y))
+            if ok and not (set(line) & union):
+                mem_ids = {U.ids[v] for v in pre_abs.members(k)}
+                sub_ids = [U.ids[v] for v in sorted(union)]
+                linked = any((pre_abs.pred[v] | pre_abs.succ[v]) & set(line) for v in union)
+                if not (mem_ids & set(sub_ids)) and len(set(sub_ids)) == len(sub_ids) and not linked:
+                    acc.count('c11_premise_free_root_attach')
+                    acc.violation('C11', sig('free-root-attach-rejected'),
+                                  f'{O.describe(op)} rejected ({type(exc).__name__}: {str(exc)[:80]}) although every listed task is detached, '
+                                  f'their ids are disjoint from W{k} and none is linked to its new ancestors', case())
         if tgt is not None and _free_root(pre_abs, tgt[1]):
             c, y = tgt
             sub = pre_abs.subtree(y)
@@ -230,6 +253,7 @@ def _expand_chunk(chunk):
     cache = {}
     obs_cache = {}
     new = {}
+    chase = []
     old_limit = sys.getrecursionlimit()
     sys.setrecursionlimit(cfg.get('reclimit', 400))
     try:
@@ -257,6 +281,7 @@ def _expand_chunk(chunk):
                     continue
                 if not si.wellformed:
                     acc.count('expanded_states_breaking_only_C05_or_C11')
+                    chase.append((post_enc, hist + (op,)))
                 if si.duplinks:
                     acc.count('pruned_duplicate_link_states')
                     new[post_enc] = None
@@ -270,6 +295,7 @@ def _expand_chunk(chunk):
     finally:
         sys.setrecursionlimit(old_limit)
     acc.extra['new'] = [(k, v) for k, v in new.items()]
+    acc.extra['chase'] = chase
     return acc
 
 
@@ -397,13 +423,20 @@ def seeded_states(uname, deep_only=True, in_wbs=(True,), max_links=1):
         if deep_only and depth < 2:
             continue
         for inw in in_wbs:
+            if inw == 'last-out' and par[U.n - 1] is not None:
+                continue
             for links in LY.link_sets(par, max_links):
                 U.restore(U.init_enc)
                 hist = []
                 try:
                     for i in range(U.n):
                         if par[i] is None:
-                            if inw == 'split':
+                            if inw == 'last-out':
+                                # every root but the last task goes into W0; the last task stays a detached root
+                                if i == U.n - 1:
+                                    continue
+                                op = ('append', ('W', 0), i)
+                            elif inw == 'split':
                                 # universes with two WBSs (equal ids in different trees): roots go to W0 and W1 in turn
                                 op = ('append', ('W', sum(1 for j in range(i) if par[j] is None) % U.m), i)
                             elif inw:
@@ -424,6 +457,33 @@ def seeded_states(uname, deep_only=True, in_wbs=(True,), max_links=1):
     return out
 
 
+def _chase(U, chase, acc, rounds=2, cap=3000):
+    """Successor states of the rich alphabet that break only C05 / C11 (e.g. a task that dropped out of its tree and still names its
+    WBS) are followed for two more steps of the attach alphabet: what such a state allows next (a second task with the same id
+    attached unnoticed) belongs to the same properties. There are none on a tree that satisfies them, so this costs nothing then."""
+    global _OPS, _SEEN
+    if not chase:
+        return
+    saved = U.alphabet
+    U.alphabet = 'full'
+    _OPS = [o for o in O.alphabet(U) if o[0] in ATTACH_FAMILIES and o[0] not in ('list=view', 'list+=view', 'list=iter', 'Task()')]
+    U.alphabet = saved
+    frontier = {}
+    for k, h in chase:
+        frontier.setdefault(k, h)
+    for _ in range(rounds):
+        items = list(frontier.items())[:cap]
+        if not items:
+            break
+        acc.count('chased_states_breaking_only_C05_or_C11', len(items))
+        frontier = {}
+        for r in runtime.pmap(_expand_chunk, runtime.split(items, runtime.n_workers() * 4)):
+            r.extra.pop('new')
+            for k, h in r.extra.pop('chase', []):
+                frontier.setdefault(k, h)
+            acc.merge(r)
+
+
 def from_states(uname, states, alphabet, acc):
     """One step of `alphabet` from each given state, with all transition oracles (successors are not expanded)."""
     global _U, _OPS, _SEEN, _CFG
@@ -435,9 +495,12 @@ def from_states(uname, states, alphabet, acc):
     _U, _CFG = U, {'reclimit': 400, 'max_links': None}
     _SEEN = set(states)
     t0 = acc.counters['transitions']
+    chase = []
     for r in runtime.pmap(_expand_chunk, runtime.split(list(states.items()), runtime.n_workers() * 4)):
         r.extra.pop('new')
+        chase += r.extra.pop('chase', [])
         acc.merge(r)
+    _chase(U, chase, acc)
     return acc.counters['transitions'] - t0
 
 
@@ -490,6 +553,7 @@ def explore(uname, acc, max_depth=None, state_cap=250000, time_cap=None, collect
         nxt = []
         for r in runtime.pmap(_expand_chunk, chunks):
             newl = r.extra.pop('new')
+            r.extra.pop('chase', None)
             acc.merge(r)
             for k, h in newl:
                 if h is None:
@@ -523,10 +587,13 @@ def explore(uname, acc, max_depth=None, state_cap=250000, time_cap=None, collect
                 o = U.observe()
                 return any(len(t[1]) >= 3 for t in o[0]) or any(len(r) >= 3 for r in o[1])
             items = [(k, h) for k, h in items if long_list(k)]
+        chase = []
         for r in runtime.pmap(_expand_chunk, runtime.split(items, runtime.n_workers() * 4)):
             n_new = len(r.extra.pop('new'))
+            chase += r.extra.pop('chase', [])
             acc.merge(r)
             acc.count('phase2_successors_not_expanded', n_new)
+        _chase(U, chase, acc)
         phase2_transitions = acc.counters['transitions'] - t1
         _OPS = ops
     res = {'universe': uname, 'ops_per_state': len(ops), 'states': len(seen), 'dead_states': len(dead),
